@@ -1,7 +1,7 @@
-\* non-vacuity self-test: the named deviation "entry-only" of the Impl model MUST be refuted (ImplAgrees)
+\* non-vacuity self-test: the named deviation "entry-only" of the Impl model MUST be refuted (invariant ImplAgrees)
 SPECIFICATION Spec
 CONSTANTS
-  Family = "basic"
+  Family = "small"
   Deviation = "entry-only"
   MaxLinks = 2
 INVARIANTS ImplAgrees
